@@ -29,5 +29,28 @@ Cat6 == Mk(<< <<"comment","",1,"c">>, <<"elem","a",1,"">>, <<"elem","b",3,"">>, 
 
 Catalogue == <<Cat1, Cat2, Cat3, Cat4, Cat5, Cat6>>
 
+(***************************************************************************)
+(* Value documents: node values range over numeric, non-numeric, empty,    *)
+(* whitespace-padded, equal pairs and disjoint sets.                       *)
+(***************************************************************************)
+\* a(@a="1", @b="x", b"1", b"2", c"x", c, d" 1 ", e(b"2", c"3"))
+Val1 == Mk(<< <<"elem","a",1,"">>, <<"attr","a",2,"1">>, <<"attr","b",2,"x">>,
+              <<"elem","b",2,"">>, <<"text","",5,"1">>,
+              <<"elem","b",2,"">>, <<"text","",7,"2">>,
+              <<"elem","c",2,"">>, <<"text","",9,"x">>,
+              <<"elem","c",2,"">>,
+              <<"elem","d",2,"">>, <<"text","",12," 1 ">>,
+              <<"elem","e",2,"">>, <<"elem","b",14,"">>, <<"text","",15,"2">>,
+              <<"elem","c",14,"">>, <<"text","",17,"3">> >>)
+\* a(b"0.5", b"-1", c"10", c"10", d"ab")
+Val2 == Mk(<< <<"elem","a",1,"">>,
+              <<"elem","b",2,"">>, <<"text","",3,"0.5">>,
+              <<"elem","b",2,"">>, <<"text","",5,"-1">>,
+              <<"elem","c",2,"">>, <<"text","",7,"10">>,
+              <<"elem","c",2,"">>, <<"text","",9,"10">>,
+              <<"elem","d",2,"">>, <<"text","",11,"ab">> >>)
+ValDocs == <<Val1, Val2>>
+
 ASSUME \A i \in 1 .. Len(Catalogue) : WFDoc(Catalogue[i])
+ASSUME \A i \in 1 .. Len(ValDocs) : WFDoc(ValDocs[i])
 =============================================================================
